@@ -83,17 +83,28 @@ func checkC05(c *FileCase) *Violation {
 	st := stat("C05")
 	src := fileCaseSrc(c)
 	var outs [2]string
+	var errs [2]error
 	for i, opt := range []bool{false, true} {
-		res := Compile(src, c.opts(opt))
+		res := CompileMaybeLM(src, c.opts(opt))
 		if !res.OK() {
 			if res.Panic != nil || res.Budget {
 				return viol("crash", "opt=%v %s\n--- source\n%s", opt, res.Describe(), src)
 			}
-			st.Label("rejected")
-			st.Note("last_rejection", clip(res.Err.Error()+"\n"+src, 800))
-			return nil
+			errs[i] = res.Err
 		}
 		outs[i] = res.Out
+	}
+	if (errs[0] == nil) != (errs[1] == nil) {
+		// optimisation only reorders code and removes jumps: it cannot decide whether a program is accepted
+		return viol("acceptance-differs", "unoptimized error: %v\noptimized error: %v\n--- source\n%s", errs[0], errs[1], src)
+	}
+	if errs[0] != nil {
+		st.Label("rejected")
+		if c.Meta["clash"] != "" {
+			st.Eval(src, true, func() any { return clip(errs[0].Error()+"\n"+src, 900) }, "clash-rejected-in-both-forms")
+		}
+		st.Note("last_rejection", clip(errs[0].Error()+"\n"+src, 800))
+		return nil
 	}
 	model := c.model()
 	m := collectNames(model)
@@ -111,6 +122,11 @@ func checkC05(c *FileCase) *Violation {
 				return viol("behaviour-differs", "%s", detail(fmt.Sprintf("entry=%s world=%d\nunoptimized %s\noptimized   %s", name, w.Seed, o0, o1)))
 			}
 		}
+	}
+	if c.Meta["clash"] != "" {
+		// a user label shaped like a generated one that does not clash: the naming model of (b)-(e) does not apply
+		st.Label("clash-shaped-label-accepted")
+		return nil
 	}
 	// (b) same user-visible labels with the same scope, same data blocks
 	vis := func(a *Asm) map[string]bool {
@@ -183,6 +199,65 @@ func checkC05(c *FileCase) *Violation {
 }
 
 func genC05(t *rapid.T) *FileCase {
+	c := genC05Base(t)
+	if rapid.IntRange(0, 7).Draw(t, "clashlabel") == 0 {
+		// one user label gets the shape of a generated sub-label of its script: rejected when that
+		// sub-label exists, whatever the layout. gotos keep the old name (they now leave the file in both
+		// forms): a goto to a generated-shaped name would rely on generated labels, which nothing promises
+		var cands []*Script
+		for _, sc := range c.File.Scripts() {
+			has := false
+			walkStmts(sc.Body, func(s *Stmt) {
+				if s.K == "label" {
+					has = true
+				}
+			})
+			if has {
+				cands = append(cands, sc)
+			}
+		}
+		if len(cands) > 0 {
+			sc := cands[rapid.IntRange(0, len(cands)-1).Draw(t, "clashscript")]
+			var labels []*Stmt
+			walkStmts(sc.Body, func(s *Stmt) {
+				if s.K == "label" {
+					labels = append(labels, s)
+				}
+			})
+			l := labels[rapid.IntRange(0, len(labels)-1).Draw(t, "clashwhich")]
+			oldName := l.Label.Name
+			newName := fmt.Sprintf("%s_%d", sc.Name, rapid.IntRange(1, 9).Draw(t, "clashn"))
+			for _, tp := range c.File.Tops {
+				var blocks []*Block
+				if tp.K == "script" {
+					blocks = append(blocks, tp.Script.Body)
+				}
+				if tp.K == "mapscripts" {
+					for _, e := range tp.Map.Entries {
+						blocks = append(blocks, e.Body)
+						for _, r := range e.Rows {
+							blocks = append(blocks, r.Body)
+						}
+					}
+				}
+				for _, b := range blocks {
+					walkStmts(b, func(s *Stmt) {
+						if s.K == "label" && s.Label.Name == oldName {
+							s.Label.Name = newName
+						}
+					})
+				}
+			}
+			if c.Meta == nil {
+				c.Meta = map[string]string{}
+			}
+			c.Meta["clash"] = newName
+		}
+	}
+	return c
+}
+
+func genC05Base(t *rapid.T) *FileCase {
 	if rapid.IntRange(0, 2).Draw(t, "kitchen") == 0 {
 		return genKitchenCase(t, pick(6, 16), pick(4, 5))
 	}
@@ -200,7 +275,7 @@ func TestC05_Regress(t *testing.T) { runRegress(t, "C05") }
 
 func TestC05_Optimize(t *testing.T) {
 	st := stat("C05")
-	st.SetRule("whole files as in C04, compiled with optimize off and on: (a) both outputs executed from every script / inline map script entry under 6 (thorough 16) hashed worlds give identical traces and finishes; (b) same user-visible labels and scopes, identical data blocks; (c) same multiset of lines apart from generated gotos and sub-labels, and not more generated gotos when optimized; (d) no generated goto to the label on the next line, (e) no unreferenced generated sub-label, in either output. non-trivial = the two outputs differ in line order (not only by removed lines); distinct by source text")
-	st.Assume("a generated jump is a goto whose target is <entry>_<n>; user names never have that shape")
+	st.SetRule("whole files as in C04, compiled with optimize off and on: (a) both outputs executed from every script / inline map script entry under 6 (thorough 16) hashed worlds give identical traces and finishes; (b) same user-visible labels and scopes, identical data blocks; (c) same multiset of lines apart from generated gotos and sub-labels, and not more generated gotos when optimized; (d) no generated goto to the label on the next line, (e) no unreferenced generated sub-label, in either output; (f) a program is accepted with optimize on exactly when it is accepted with optimize off (1 in 8 cases names a user label like a generated sub-label of its script, which is rejected iff that sub-label exists; for those only (a) and (f) are checked). non-trivial = the two outputs differ in line order (not only by removed lines); distinct by source text")
+	st.Assume("a generated jump is a goto whose target is <entry>_<n>; user names never have that shape (except the clash cases, where the naming-based clauses (b)-(e) are skipped)")
 	runRapid(t, "C05", "TestC05_Optimize", genC05, checkC05, fileCaseSrc)
 }
